@@ -41,6 +41,10 @@ impl Have {
     }
 
     pub fn check(available_data: usize, length: usize) -> Result<usize, Error> {
+        if length != Have::LEN as usize {
+            return Err(Error::InvalidLength("Have"));
+        }
+
         match length == Have::LEN as usize && available_data >= Have::LEN_SIZE + length {
             true => Ok(Have::FULL_SIZE),
             false => Err(Error::Incomplete("Have")),
